@@ -10,10 +10,32 @@ T0 = datetime.datetime(2024, 1, 2, 3, 4, 5, tzinfo=datetime.timezone.utc)
 NODE_TAGS = set(docs.CLASSES)
 
 def graph_tables(G):
-    """UAGraph -> the canonical form of parsecmp.canon_result (ids are row positions in a graph built from files)"""
-    from opcua_tools.nodeset_generator import create_lookup_df
-    lk = create_lookup_df(G.nodes).reset_index(drop=True)
-    return parsecmp.canon_result(dict(nodes=G.nodes, references=G.references, lookup_df=lk, namespaces=G.namespaces, models=G.models))
+    """UAGraph -> the canonical form of parsecmp.canon_result (NodeIds found through the id column, whatever the row labels and order are)"""
+    um = {int(i): n for i, n in zip(G.nodes["id"], G.nodes["NodeId"])}
+    return parsecmp.canon_result(dict(nodes=G.nodes, references=G.references, lookup_df=None, uniq_map=um, namespaces=G.namespaces, models=G.models))
+
+def graph_variant(G, rng):
+    """the same graph held differently: UAGraph takes any node/reference tables, so row order, row labels and gaps in the ids are the caller's business.
+    'pruned' also removes one namespace's nodes (and what points at them), as a user trimming a graph would."""
+    from opcua_tools.ua_graph import UAGraph
+    kind = rng.choice(["as-parsed", "as-parsed", "permuted", "relabelled", "pruned"])
+    if kind == "as-parsed": return kind, G
+    nodes = G.nodes.copy(); refs = G.references.copy()
+    if kind == "permuted":
+        nodes = nodes.sample(frac=1, random_state=rng.randrange(2 ** 31)); refs = refs.sample(frac=1, random_state=rng.randrange(2 ** 31))
+    elif kind == "relabelled":
+        nodes.index = [1000 + 3 * i for i in range(len(nodes))][::-1]; refs.index = [7 + 2 * i for i in range(len(refs))]
+    else:
+        cand = sorted(set(int(x) for x in nodes["ns"] if int(x) != 0))
+        if len(cand) < 2: return "as-parsed", G
+        k = rng.choice(cand)
+        gone = set(int(i) for i in nodes.loc[nodes["ns"] == k, "id"])
+        nodes = nodes[nodes["ns"] != k].copy()
+        refs = refs[~(refs["Src"].isin(gone) | refs["Trg"].isin(gone) | refs["ReferenceType"].isin(gone))].copy()
+        for c in parsecmp.REFCOLS:
+            if c in nodes.columns: nodes[c] = nodes[c].map(lambda v: pd.NA if (not pd.isna(v) and int(v) in gone) else v)
+        nodes = nodes.reset_index(drop=True); refs = refs.reset_index(drop=True)
+    return kind, UAGraph(nodes=nodes, references=refs, namespaces=list(G.namespaces), models=copy.deepcopy(G.models))
 
 def local(tag): return ET.QName(tag).localname
 def xml_to_docsx(text, fname):
@@ -255,16 +277,18 @@ def run(ctx, prop):
             paths = graphprops.write_files(work, files)
             st, G = graphprops.build(paths)
             if G is None: continue
+            vseed = rng.randrange(2 ** 31)
+            variant, G = graph_variant(G, random.Random(vseed))
             tables = graph_tables(G)
             outs = correspondence(ctx, prop, rng, work, reqs, meta, G, tables, g, ci, inc_choices=(True, False) if prop != "C05" else (True,))
             nodes_by_uri = {u: sum(1 for k in g.nodes if k[0] == u) for u in g.uris}
             for (uri, inc), out in outs.items():
-                feats = ["inc" if inc else "no-outgoing", "hostile" if hostile else "plain", "nodes=%d" % min(nodes_by_uri.get(uri, 0), 3)]
+                feats = ["inc" if inc else "no-outgoing", "hostile" if hostile else "plain", "nodes=%d" % min(nodes_by_uri.get(uri, 0), 3), "graph=" + variant]
                 ctx.record(dict(case=ci, uri=uri, inc=inc, files=[n for n, _ in files]), len(g.uris) > 1, feats)
                 causes = write_causes(G, tables, uri, out, inc) - {"model-version-defaulted"}
                 fl = oracle_c06(tables, uri, inc, out) if prop == "C06" else (oracle_c07(uri, out) if prop == "C07" else [])
                 for sig, detail in fl:
-                    ctx.fail(("%s/known:" % prop + "+".join(sorted(causes))) if causes else sig, dict(kind="write", files=files, uri=uri, inc=inc), sig + ": " + detail)
+                    ctx.fail(("%s/known:" % prop + "+".join(sorted(causes))) if causes else sig, dict(kind="write", files=files, uri=uri, inc=inc, vseed=vseed), sig + ": " + detail)
             if prop == "C05":
                 base = [f for f in files if f[0].endswith("Opc.Ua.NodeSet2.xml")]
                 if base:
@@ -272,7 +296,7 @@ def run(ctx, prop):
                     for uri in g.uris:
                         if uri in G.namespaces: causes |= write_causes(G, tables, uri, outs.get((uri, True), ["ok", ""]))
                     for sig, detail in oracle_c05(work, G, tables, g, base[0]):
-                        ctx.fail(("C05/known:" + "+".join(sorted(causes))) if causes else sig, dict(kind="roundtrip", files=files), sig + ": " + detail)
+                        ctx.fail(("C05/known:" + "+".join(sorted(causes))) if causes else sig, dict(kind="roundtrip", files=files, vseed=vseed), sig + ": " + detail)
     finally:
         shutil.rmtree(work, ignore_errors=True)
     ans = vlib.run_model(reqs, shards=8)
@@ -361,6 +385,7 @@ def case_replay(case, prop):
         paths = graphprops.write_files(work, files)
         st, G = graphprops.build(paths)
         if G is None: return [("%s/case-unbuildable" % prop, "%r" % (st,))]
+        if "vseed" in case: _, G = graph_variant(G, random.Random(case["vseed"]))
         tables = graph_tables(G)
         if case["kind"] == "roundtrip":
             base = [f for f in files if f[0].endswith("Opc.Ua.NodeSet2.xml")]
